@@ -429,6 +429,10 @@ func tLeaves(ls []mxj.LeafNode, err error) string {
 	sort.Strings(xs)
 	return "{" + strings.Join(xs, " | ") + "} " + et(err)
 }
+
+// plainReader hides every method of the wrapped reader except Read (in particular ReadByte).
+type plainReader struct{ io.Reader }
+
 func rest(r io.Reader) string {
 	b, _ := io.ReadAll(r)
 	return fmt.Sprintf(" rest=%q", string(b))
@@ -896,21 +900,25 @@ func init() {
 		{"x2jw.XmlMsgsFromReader", "xmlstream", "bulk", func(c c20Case) (string, string) {
 			var log []string
 			ph, eh := c.handlers(&log)
-			ge := x2jw.XmlMsgsFromReader(strings.NewReader(c.Doc), func(m map[string]interface{}) bool { return ph(canon(m)) }, eh, c.Flags...)
+			// a reader that is NOT an io.ByteReader (a file, socket or pipe): after the loop - in particular after a handler
+			// stopped it - the wrapper must have consumed exactly what the core loop consumes (seed C20-6: private read-ahead)
+			gr := strings.NewReader(c.Doc)
+			ge := x2jw.XmlMsgsFromReader(plainReader{gr}, func(m map[string]interface{}) bool { return ph(canon(m)) }, eh, c.Flags...)
 			wr := strings.NewReader(c.Doc)
 			want := bulkLog(c, func() (string, bool, error) {
-				m, e := mxj.NewMapXmlReader(wr, flag1(c.Flags))
+				m, e := mxj.NewMapXmlReader(plainReader{wr}, flag1(c.Flags))
 				return canon(mapOf(m)), m != nil, e
 			})
-			return strings.Join(log, " ; ") + " -> " + et(ge), want
+			return strings.Join(log, " ; ") + " -> " + et(ge) + rest(gr), want + rest(wr)
 		}},
 		{"x2jw.XmlMsgsFromReaderAsJson", "xmlstream", "bulk", func(c c20Case) (string, string) {
 			var log []string
 			ph, eh := c.handlers(&log)
-			ge := x2jw.XmlMsgsFromReaderAsJson(strings.NewReader(c.Doc), ph, eh, c.Flags...)
+			gr := strings.NewReader(c.Doc)
+			ge := x2jw.XmlMsgsFromReaderAsJson(plainReader{gr}, ph, eh, c.Flags...)
 			wr := strings.NewReader(c.Doc)
 			want := bulkLog(c, func() (string, bool, error) {
-				m, e := mxj.NewMapXmlReader(wr, flag1(c.Flags))
+				m, e := mxj.NewMapXmlReader(plainReader{wr}, flag1(c.Flags))
 				if m == nil || e != nil {
 					return "", false, e
 				}
@@ -920,7 +928,7 @@ func init() {
 				}
 				return string(j), len(j) > 0, nil
 			})
-			return strings.Join(log, " ; ") + " -> " + et(ge), want
+			return strings.Join(log, " ; ") + " -> " + et(ge) + rest(gr), want + rest(wr)
 		}},
 		{"x2jw.XmlMsgsFromFile", "xmlfile", "bulk", func(c c20Case) (string, string) {
 			f := c20TmpFile(c.Doc)
